@@ -48,7 +48,7 @@ func (propC03) Gen(r *Rng, tier string) *World {
 	w.Cfg.ViaDirect = r.P(0.3)
 	w.Cfg.DirStyle = r.Intn(6)
 	w.Cfg.ViaAPI = r.P(0.4)
-	w.Cfg.Event = []string{"", "", "", "report", "debug"}[r.Intn(5)]
+	w.Cfg.Event = []string{"", "", "", "report", "debug", "both"}[r.Intn(6)]
 	w.API = "eval"
 	first := r.Intn(16)
 	for i := 0; i < 4; i++ {
